@@ -930,7 +930,12 @@ class Simplifier(pysmt.walkers.DagWalker):
         s, i = args
         if s.is_string_constant() and i.is_int_constant():
             i_value = cast(int, i.constant_value())
-            res = cast(str, s.constant_value())[i_value:i_value + 1]
+            s_value = cast(str, s.constant_value())
+            # smtlib2: the empty string if i is not a valid position
+            # (a negative i must not be read as a Python negative index)
+            res = ""
+            if 0 <= i_value < len(s_value):
+                res = s_value[i_value]
             return self.manager.String(res)
         return self.manager.StrCharAt(s, i)
 
@@ -944,11 +949,13 @@ class Simplifier(pysmt.walkers.DagWalker):
     def walk_str_indexof(self, formula: FNode, args: List[FNode], **kwargs) -> FNode:
         s, t, i = args
         if s.is_string_constant() and t.is_string_constant() and i.is_int_constant():
-            idx = cast(str, s.constant_value()).find(
-                cast(str, t.constant_value()),
-                cast(int, i.constant_value()),
-            )
-            # idx = -1, if t is not found
+            s_value = cast(str, s.constant_value())
+            i_value = cast(int, i.constant_value())
+            # smtlib2: -1 if i is not in [0, |s|] or t is not found
+            # (a negative i must not be read as a Python negative index)
+            idx = -1
+            if 0 <= i_value <= len(s_value):
+                idx = s_value.find(cast(str, t.constant_value()), i_value)
             return self.manager.Int(idx)
         return self.manager.StrIndexOf(s, t, i)
 
@@ -964,9 +971,14 @@ class Simplifier(pysmt.walkers.DagWalker):
     def walk_str_substr(self, formula: FNode, args: List[FNode], **kwargs) -> FNode:
         s, i, j = args
         if s.is_string_constant() and i.is_int_constant() and j.is_int_constant():
+            s_value = cast(str, s.constant_value())
             start_ = cast(int, i.constant_value())
-            end_ = cast(int, i.constant_value()) + cast(int, j.constant_value())
-            res = cast(str, s.constant_value())[start_:end_]
+            len_ = cast(int, j.constant_value())
+            # smtlib2: the empty string unless 0 <= i < |s| and j > 0
+            # (negative values must not be read as Python negative indexes)
+            res = ""
+            if 0 <= start_ < len(s_value) and len_ > 0:
+                res = s_value[start_:start_ + len_]
             return self.manager.String(res)
         return self.manager.StrSubstr(s, i, j)
 
@@ -985,10 +997,12 @@ class Simplifier(pysmt.walkers.DagWalker):
     def walk_str_to_int(self, formula: FNode, args: List[FNode], **kwargs) -> FNode:
         s = args[0]
         if s.is_string_constant():
-            try:
-                return self.manager.Int(int(s.constant_value()))
-            except ValueError:
-                return self.manager.Int(-1)
+            s_value = cast(str, s.constant_value())
+            # smtlib2: -1 unless s is a non-empty sequence of the digits 0-9
+            # (int() also accepts signs, spaces, underscores, non-ASCII digits)
+            if len(s_value) > 0 and all(c in "0123456789" for c in s_value):
+                return self.manager.Int(int(s_value))
+            return self.manager.Int(-1)
         return self.manager.StrToInt(s)
 
     def walk_int_to_str(self, formula: FNode, args: List[FNode], **kwargs) -> FNode:
